@@ -536,6 +536,17 @@ pub fn standalone<'d>(data: &'d [u8], c: &mut Choice<'d>, st: &mut WalkStats) {
     let _ = fold!(st, AnyEndian::from_ei_data(b));
     let _ = fold!(st, LittleEndian::from_ei_data(b));
     let _ = fold!(st, BigEndian::from_ei_data(b));
+    // values every caller can make without a file: the Default impls
+    let dstr = StringTable::default();
+    let _ = fold!(st, dstr.get(c.below(3) as usize));
+    let _ = fold!(st, dstr.get_raw(if c.bool() { 0 } else { c.val(64) as usize }));
+    let _ = write!(st.sink, "{:?}{:?}", elf::CommonElfData::<AnyEndian>::default(), dstr);
+    for off in offs {
+        let mut o = off;
+        let _ = fold!(st, AnyEndian::default().parse_u32_at(&mut o, data));
+        let _ = fold!(st, LittleEndian::default().parse_u16_at(&mut o, data));
+        let _ = fold!(st, BigEndian::default().parse_u64_at(&mut o, data));
+    }
     let strs = StringTable::new(sub(data, c));
     strtab_probe(&strs, len, c, st);
     let nd = sub(data, c);
